@@ -1,4 +1,5 @@
 mod core;
+mod gen_diff;
 mod gen_src;
 mod gen_val;
 mod rng;
@@ -14,6 +15,12 @@ fn main() -> anyhow::Result<()> {
         Some("val") => {
             let kind = a.rest.first().cloned().unwrap_or_else(|| "keep-sorted".into());
             let rows = core::par_cases(a.n, a.seed, |ctx, seed, i| gen_val::generate(ctx, seed, i, &kind));
+            core::write_out(&a.out, &rows)
+        }
+        Some("replay") => core::replay(a.rest.first().map(String::as_str).unwrap_or("cases.jsonl"), &a.out),
+        Some("diff") => {
+            let mode = a.rest.first().cloned().unwrap_or_else(|| "drift".into());
+            let rows = core::par_cases(a.n, a.seed, |ctx, seed, i| gen_diff::generate(ctx, seed, i, &mode));
             core::write_out(&a.out, &rows)
         }
         Some("unbalanced") => {
